@@ -283,6 +283,32 @@ class SSeq(Sym):
         return 'SSeq(len=%s)' % self.length
 
 
+class SIter(Sym):
+    """A one-shot iterator: the underlying sequence and how many elements
+    have been pulled so far (mutable: `pos` advances)."""
+
+    def __init__(self, seq, pos=None):
+        self.seq = seq
+        self.pos = z3.IntVal(0) if pos is None else pos
+
+    def remaining(self):
+        return seq_slice(self.seq, self.pos, None)
+
+    def __repr__(self):
+        return 'SIter(pos=%s)' % self.pos
+
+
+class TIter(T):
+    def __init__(self, elem):
+        self.elem = elem
+        self.name = 'Iter[%s]' % elem.name
+
+    def fresh(self, base, facts=None):
+        q = TSeq(self.elem).fresh(base, facts)
+        q.kind = 'iter'
+        return SIter(q)
+
+
 class SMap(Sym):
     def __init__(self, dom, val, key_t, val_t):
         self.dom, self.val, self.key_t, self.val_t = dom, val, key_t, val_t
